@@ -2,13 +2,55 @@
 // Contract = hibitset documentation: a bit set is a set of u32 indices; `iter()` yields its members in strictly
 // ascending order, each exactly once; BitIter::contains asks the underlying set; BitSetNot is the complement,
 // BitSetAll every index, BitSetAnd the intersection. The layered skip logic inside hibitset is NOT verified here.
-pub uninterp spec fn sorted_seq(s: Set<u32>) -> Seq<u32>;
-#[verifier::external_body]
+// sorted_seq(s): the members of s in strictly ascending order. DEFINED (not assumed): scan the index space upwards.
+pub open spec fn seq_below(s: Set<u32>, n: nat) -> Seq<u32>
+    decreases n
+{
+    if n == 0 { Seq::empty() } else {
+        let q = seq_below(s, (n - 1) as nat);
+        if s.contains((n - 1) as u32) { q.push((n - 1) as u32) } else { q }
+    }
+}
+pub proof fn lemma_seq_below(s: Set<u32>, n: nat)
+    requires n <= 0x1_0000_0000
+    ensures
+        forall|a: int, b: int| 0 <= a < b < seq_below(s, n).len() ==> seq_below(s, n)[a] < seq_below(s, n)[b],
+        forall|a: int| 0 <= a < seq_below(s, n).len() ==> (#[trigger] seq_below(s, n)[a] as nat) < n && s.contains(seq_below(s, n)[a]),
+        forall|i: u32| (i as nat) < n && s.contains(i) ==> seq_below(s, n).contains(i),
+    decreases n
+{
+    if n > 0 {
+        lemma_seq_below(s, (n - 1) as nat);
+        let q = seq_below(s, (n - 1) as nat);
+        let x = (n - 1) as u32;
+        if s.contains(x) {
+            let r = q.push(x);
+            assert(seq_below(s, n) == r);
+            assert forall|i: u32| (i as nat) < n && s.contains(i) implies r.contains(i) by {
+                if i == x { assert(r[q.len() as int] == x); } else {
+                    assert(q.contains(i));
+                    let k = choose|k: int| 0 <= k < q.len() && q[k] == i;
+                    assert(r[k] == i);
+                }
+            }
+        }
+    }
+}
+#[verifier::opaque]
+pub open spec fn sorted_seq(s: Set<u32>) -> Seq<u32> { seq_below(s, 0x1_0000_0000) }
+// PROVED (was an axiom): strictly ascending, exactly the members of s
 pub broadcast proof fn axiom_sorted_seq(s: Set<u32>)
     ensures
         forall|a: int, b: int| 0 <= a < b < (#[trigger] sorted_seq(s)).len() ==> sorted_seq(s)[a] < sorted_seq(s)[b],
         forall|i: u32| s.contains(i) <==> sorted_seq(s).contains(i),
-{}
+{
+    reveal(sorted_seq);
+    lemma_seq_below(s, 0x1_0000_0000);
+    assert forall|i: u32| sorted_seq(s).contains(i) implies s.contains(i) by {
+        let k = choose|k: int| 0 <= k < sorted_seq(s).len() && sorted_seq(s)[k] == i;
+        assert(s.contains(sorted_seq(s)[k]));
+    }
+}
 pub uninterp spec fn all_u32() -> Set<u32>;
 #[verifier::external_body]
 pub broadcast proof fn axiom_all_u32(i: u32)
